@@ -394,6 +394,8 @@ void hv_case(uint64_t index)
     else if (op < 13) { what = "restrict"; struct hx h; hx_init(&h, t, &R); h.allow_bad_args = 0; struct hx_result res; hx_random_op(&h, 1u << HX_RESTRICT, &res); hv_desc("  %s -> %d\n", res.desc, res.rc); if (res.rc == 0) { model_follow(t); carriers++; } }
     else if (op < 15) { what = "dup"; hv_ctxkey("carrier:dup"); hwloc_topology_t t2 = NULL; if (hwloc_topology_dup(&t2, t) == 0) { hwloc_topology_destroy(t); t = t2; carriers++; hv_desc("  carrier: dup\n"); } }
     else { what = "xml"; hv_ctxkey("carrier:xml"); char *buf = NULL; int len = 0;
+      if (tv_has_empty_normal_object(t)) { hv_viol("carrier.xml.empty_objects_left_by_restrict", "the topology holds a normal object with neither a PU nor a NUMA node below it (left by a restrict by nodeset); a reload drops it, the XML carrier cannot preserve what refers to it"); break; }
+      
       if (hwloc_topology_export_xmlbuffer(t, &buf, &len, 0) == 0) {
         hwloc_topology_t t2; hwloc_topology_init(&t2); hwloc_topology_set_all_types_filter(t2, HWLOC_TYPE_FILTER_KEEP_ALL);
         hwloc_topology_set_flags(t2, hwloc_topology_get_flags(t) & ~(unsigned long)HWLOC_TOPOLOGY_FLAG_NO_DISTANCES);
